@@ -1,10 +1,10 @@
 package main
 
 import (
+	"fmt"
 	"go/token"
 	"go/types"
 	"golang.org/x/tools/go/ssa"
-	"fmt"
 	"os"
 	"strings"
 	"time"
@@ -230,6 +230,17 @@ func main() {
 			}
 		}
 		fmt.Println("ok", n, time.Since(t0))
+	case "ec":
+		rules.EC(rc, nil, 0)
+		n := 0
+		for _, o := range s.Obs {
+			if o.Verdict != core.OK {
+				fmt.Println(o.V, o.Rule, o.Key, o.Pos, "::", o.Detail)
+			} else {
+				n++
+			}
+		}
+		fmt.Println("ok", n)
 	case "k1w":
 		rules.K1w(rc, nil, 0)
 		for _, o := range s.Obs {
